@@ -785,6 +785,22 @@ pub fn gen_picture(rng: &mut Rng, ty: Ty, lossless: bool) -> Option<GenPic> {
     if rng.chance(1, 10) {
         text.push_str(*rng.pick(&[" ", ".", ";", "  "]));
     }
+    // now and then: pad with separators to exactly 36 tokens (the documented maximum)
+    if rng.chance(1, 16) {
+        if let Some(t) = tokenize(text.as_bytes()) {
+            let mut n = t.len();
+            let ends_blank = matches!(t.last(), Some(Tok::Blank(_)));
+            if n < MAX_TOKENS && !ends_blank {
+                while n + 2 <= MAX_TOKENS {
+                    text.push_str(", ");
+                    n += 2;
+                }
+                if n < MAX_TOKENS {
+                    text.push(';');
+                }
+            }
+        }
+    }
     let toks = tokenize(text.as_bytes())?;
     // the picture must re-tokenise to exactly the intended fields (in order), ignoring separators
     for t in toks.iter() {
